@@ -74,7 +74,7 @@ pub fn strategy() -> impl Strategy<Value = Case> {
             1 => vec((any::<u16>(), mut_recipe()), 2..=4).prop_map(|v| (false, v)),
         ],
         vec((any::<u16>(), any::<u8>(), any::<u8>()), 0..3),
-        (any::<u16>(), 0u8..4, any::<u8>()),
+        (any::<u16>(), 0u8..5, any::<u8>()),
     )
         .prop_map(|(tr, kcfg, no_symlinks, p, o, capi, (enumerate, muts), traps, (lsel, lmode, suffix))| {
             let mut tree = build_tree(&tr);
@@ -100,6 +100,28 @@ pub fn strategy() -> impl Strategy<Value = Case> {
                     Op::Open { flags, .. } => Op::Open { path, flags },
                     o => o,
                 };
+            }
+            // a lookup that leaves a top-level directory again through a physical '..',
+            // while that directory is moved out of the root (to the stash or to the
+            // sibling whose name reads "<root> (deleted)")
+            let (mut muts, mut enumerate) = (muts, enumerate);
+            if lmode == 4 {
+                let tops: Vec<B> = tree.dirs().into_iter().filter(|d| !d.0.is_empty() && !d.0.contains(&b'/')).collect();
+                if !tops.is_empty() {
+                    let d = tops[pick(lsel, tops.len())].clone();
+                    let mut path = d.join(b"..");
+                    if suffix & 1 == 1 {
+                        path = path.join(ALPHA[suffix as usize / 2 % ALPHA.len()].as_bytes());
+                    }
+                    op = match op {
+                        Op::Readlink { .. } => Op::ResolveNofollow { path },
+                        Op::ResolveNofollow { .. } => Op::ResolveNofollow { path },
+                        Op::Open { .. } => Op::Open { path, flags: libc::O_RDONLY | libc::O_DIRECTORY },
+                        _ => Op::Resolve { path },
+                    };
+                    muts = vec![(0u16, MutRecipe { kind: MutKind::MoveOut, target: suffix as u16 * 257, parent: false, restore_after: if suffix & 2 == 2 { 1 } else { 0 } })];
+                    enumerate = true;
+                }
             }
             Case { tree, kcfg, no_symlinks, lookup: Lookup { op, capi: capi && !no_symlinks }, muts, enumerate, only_placement: None }
         })
